@@ -10,7 +10,14 @@ Four streams on the real code, against a real temp directory:
             jobs are parked at the same wrappers so that every (pause point of job 0) x (pause
             point of job 1) interleaving with the pairing changes is forced; random 3/4-job
             schedules on top;
-  natural   the same path free-running, with seeded jitter in the wrappers.
+  natural   the same path free-running, with seeded jitter in the wrappers;
+  public    every operation that changes the persisted state, through the real request handler or
+            the public driver method that schedules its own save (pair-setup completion, add-pairing
+            of a new controller / of a stored one with other permissions, another key, another
+            spelling of the identifier, remove-pairing, removal of the only admin, pair-verify
+            back-fill of identifier bytes on a file written without them, config_changed,
+            async_start's accessories-hash update); no wrappers, nothing calls persist; loop and
+            default executor drain, then the file must equal the in-memory state.
 Oracle (independent of the model; harness/ref/statefile.py): after a failed or killed save the
 file is a complete loadable copy of the previous or the new state, a handled failure leaves no
 temp file; at quiescence the file equals the in-memory identity + pairings.
@@ -32,7 +39,7 @@ import time
 import uuid
 from typing import Any, Dict, List, Optional, Tuple
 
-from common import Ctx, run_model
+from common import Ctx, delta_min, run_model
 from ref import statefile as ref
 
 PROP = "C15"
@@ -50,7 +57,12 @@ TRUSTED = [
     "survive process death, not machine death), POSIX semantics of os.replace (atomic within a directory; "
     "non-POSIX rename semantics are not covered), tempfile returning a fresh name, os.replace/os.remove "
     "failing without effect",
-    "harness/ref/statefile.py (independent reader of the state file), the wrappers/scheduler of this module",
+    "model hypothesis 'every state-changing public operation schedules a save after it' (label `mutate` = change + "
+    "job; the hypothesis under which C15_converge speaks about the real system): not a theorem, tied by the "
+    "`public` stream, which drives each such operation through the real handler / driver method and judges the "
+    "file at quiescence",
+    "harness/ref/statefile.py (independent reader of the state file), harness/ref/c14_pairverify.py and tlv8.py "
+    "(reference controller for the handler requests), the wrappers/scheduler of this module",
 ]
 ASSUMPTIONS = [
     "crash = death of the Python process (os._exit): user-space buffers are lost, the page cache survives; "
@@ -70,7 +82,11 @@ HANG_S = 20.0
 
 
 class Injected(OSError):
-    """The error raised by an injected fault."""
+    """The error raised by an injected fault (an I/O error: disk full)."""
+
+
+class InjectedBug(RuntimeError):
+    """An injected failure that is not an OSError (what a failing encoder or codec raises)."""
 
 
 class Hung(Exception):
@@ -279,7 +295,8 @@ class Ctl:
     def __init__(self, faults=(), forced=False, jitter=None):
         self.cond = threading.Condition()
         self.count: Dict[Tuple[Any, str], int] = {}
-        self.faults = {tuple(f) for f in faults}  # (job, point, nth)
+        self.kinds = {tuple(f[:3]): (f[3] if len(f) > 3 else "os") for f in faults}
+        self.faults = set(self.kinds)  # (job, point, nth)
         self.fired: List[Tuple[Any, str, int]] = []
         self.forced = forced
         self.stop: Dict[Any, Any] = {}
@@ -304,6 +321,8 @@ class Ctl:
         if d:
             time.sleep(d)
         if hit:
+            if self.kinds.get((job, point, n)) == "rt":
+                raise InjectedBug(f"injected non-I/O failure at {point}#{n}")
             raise Injected(errno.ENOSPC, f"injected fault at {point}#{n}")
 
     def finish(self, job, outcome):
@@ -898,7 +917,7 @@ def fault_case(ctx: Ctx, scn: dict, saves: List[List[list]], model_cases: list, 
     if getattr(ctx, "hung", False):
         return {}
     st = ctx.stats
-    faults = [(i, p, n) for i, fs in enumerate(saves) for p, n in fs]
+    faults = [(i, *f) for i, fs in enumerate(saves) for f in fs]  # f = [point, nth] or [point, nth, "rt"]
     ctl = Ctl(faults=faults)
     rig = Rig(ctl, scn["initial"], with_loop=False, write_initial=scn["prev_on_disk"])
     replay = {"kind": "fault", "scenario": scn, "saves": saves}
@@ -981,6 +1000,11 @@ def fault_stream(ctx: Ctx, model_cases: list):
             top = max(per_point[p], 1)
             for n in range(1, top + 2):
                 fault_case(ctx, scn, [[[p, n]]], model_cases)
+        # failures that are not OSErrors (a failing encoder / codec), at every kind of step
+        for p in ("mktemp", "snapshot", "close", "replace"):
+            fault_case(ctx, scn, [[[p, 1, "rt"]]], model_cases)
+        for n in sorted({1, 2, max(per_point["write"] // 2, 1), max(per_point["write"], 1)}):
+            fault_case(ctx, scn, [[["write", n, "rt"]]], model_cases)
         # a fault that provokes the cleanup, combined with a fault in the cleanup itself
         for p in ("snapshot", "write", "close", "replace"):
             for c in CLEANUP_POINTS:
@@ -994,7 +1018,7 @@ def fault_stream(ctx: Ctx, model_cases: list):
                 r = rng.random()
                 if r < 0.7:
                     p = rng.choice(POINTS)
-                    fs.append([p, rng.randrange(1, nw + 1) if p == "write" else 1])
+                    fs.append([p, rng.randrange(1, nw + 1) if p == "write" else 1] + (["rt"] if rng.random() < 0.3 else []))
                     if rng.random() < 0.25:
                         fs.append([rng.choice(CLEANUP_POINTS), 1])
                 saves.append(fs)
@@ -1237,6 +1261,403 @@ def natural_stream(ctx: Ctx):
         natural_case(ctx, {"name": f"natural-{n}", "initial": i0}, ops, jitter, gaps)
 
 
+# --------------------------------------------------------------------------- stream: public
+
+
+class _FakeAdvertiser:
+    """Stands in for AsyncZeroconf (public constructor parameter): nothing goes on the network."""
+
+    async def async_register_service(self, info, cooperating_responders=False):
+        return None
+
+    async def async_update_service(self, info):
+        return None
+
+    async def async_unregister_service(self, info):
+        return None
+
+    async def async_close(self):
+        return None
+
+
+class _StubServer:
+    """Stands in for the listening socket only; request handling uses the real HAPServerHandler."""
+
+    async def async_start(self, loop):
+        return None
+
+    def async_stop(self):
+        return None
+
+
+def _ctrl_pub(seed_hex: str) -> bytes:
+    from ref import c14_pairverify as pv
+
+    return pv.controller_key(bytes.fromhex(seed_hex))[1]
+
+
+class PublicRig:
+    """A real driver + accessory on a real loop; every state change goes through the real request
+    handler (pair-verify, add/remove pairing) or a public driver method (pair as pair-setup M5
+    does, config_changed, async_start).  Nothing here calls persist: the code under check must
+    schedule its own saves.  No wrappers are installed."""
+
+    def __init__(self, scn: dict):
+        ad, _, _ = _pyhap()
+        from pyhap.accessory import Accessory
+
+        self.dir = tempfile.mkdtemp(prefix="c15p-")
+        self.path = os.path.join(self.dir, STATE_FILE)
+        if scn.get("file"):
+            self._write_file(scn)
+        self.loop = asyncio.new_event_loop()
+        self.submitted = 0
+        self.futs: List[Any] = []
+        orig = self.loop.run_in_executor
+
+        def run_in_executor(executor, fn, *args):
+            self.submitted += 1
+            f = orig(executor, fn, *args)
+            self.futs.append(f)
+            return f
+
+        self.loop.run_in_executor = run_in_executor
+        self._rie = orig  # for the harness's own waiting, not counted as a save
+        from concurrent.futures import ThreadPoolExecutor
+
+        self.helper = ThreadPoolExecutor(2)
+        self.driver = ad.AccessoryDriver(
+            loop=self.loop, persist_file=self.path, address="127.0.0.1", port=51826, mac="AA:BB:CC:DD:EE:FF",
+            pincode=b"031-45-154", async_zeroconf_instance=_FakeAdvertiser(),
+        )
+        self.driver.http_server = _StubServer()
+        self.driver.add_accessory(Accessory(self.driver, "Lamp"))  # loads the file, or stores a first one
+        self.state = self.driver.state
+        self.threads: List[threading.Thread] = []
+        self.port = 50000
+        self.started = False
+
+    def _write_file(self, scn):
+        """A state file written by an earlier run; 'legacy' = from a version that did not store the
+        identifier bytes (no client_uuid_to_bytes member)."""
+        from cryptography.hazmat.primitives import serialization as ser
+        from cryptography.hazmat.primitives.asymmetric import ed25519
+
+        sk = ed25519.Ed25519PrivateKey.from_private_bytes(bytes.fromhex(scn["accessory_seed"]))
+        doc = {
+            "mac": "AA:BB:CC:DD:EE:FF",
+            "config_version": 3,
+            "paired_clients": {str(uuid.UUID(c["id"])): _ctrl_pub(c["seed"]).hex() for c in scn["initial"]},
+            "client_properties": {str(uuid.UUID(c["id"])): {"permissions": c["perm"]} for c in scn["initial"]},
+            "accessories_hash": None,
+            "private_key": sk.private_bytes(ser.Encoding.Raw, ser.PrivateFormat.Raw, ser.NoEncryption()).hex(),
+            "public_key": sk.public_key().public_bytes(ser.Encoding.Raw, ser.PublicFormat.Raw).hex(),
+        }
+        if scn["file"] != "legacy":
+            doc["client_uuid_to_bytes"] = {str(uuid.UUID(c["id"])): c["id"].encode().hex() for c in scn["initial"]}
+        with open(self.path, "w", encoding="utf8") as fh:
+            json.dump(doc, fh)
+
+    # -- requests on one connection
+    def _handler(self):
+        from pyhap import hap_handler
+
+        self.port += 1
+        return hap_handler.HAPServerHandler(self.driver, ("127.0.0.1", self.port))
+
+    @staticmethod
+    def _post(h, target: str, body: bytes):
+        import h11
+
+        r = h.dispatch(h11.Request(method="POST", target=target, headers=[("Host", "lamp")]), body)
+        return r.status_code, bytes(r.body)
+
+    def session(self, who: dict):
+        """A connection on which controller `who` has completed pair-verify (None if refused)."""
+        from ref import c14_pairverify as pv
+
+        h = self._handler()
+        res = pv.pair_verify(
+            lambda b: self._post(h, "/pair-verify", b), who["id"].encode(), bytes.fromhex(who["seed"]),
+            bytes.fromhex(ref.canon_state(self.state)["public_key"]), self.state.mac.encode(),
+        )
+        return (h if res == "verified" else None), res
+
+    def do(self, op: dict) -> str:
+        """One operation, on the loop thread (called from inside a coroutine)."""
+        from ref import tlv8
+
+        k = op["op"]
+        if k == "setup":  # what the last step of pair-setup does
+            self.driver.pair(op["id"].encode(), _ctrl_pub(op["seed"]), bytes([op["perm"]]))
+            return "paired"
+        if k == "verify":
+            return self.session(op["who"])[1]
+        if k in ("add", "remove"):
+            h, res = self.session(op["actor"])
+            if h is None:
+                return "actor-not-verified:" + res
+            if k == "add":
+                body = tlv8.encode([(0, b"\x03"), (1, op["id"].encode()), (3, _ctrl_pub(op["seed"])), (11, bytes([op["perm"]]))])
+            else:
+                body = tlv8.encode([(0, b"\x04"), (1, op["id"].encode())])
+            code, rb = self._post(h, "/pairings", body)
+            d = tlv8.merge_dict(tlv8.decode_list(rb)) if code == 200 else {}
+            return "ack" if code == 200 and 7 not in d else f"refused:{code}:{d.get(7, b'').hex()}"
+        if k == "config_changed":  # called from some other thread, as applications do
+            t = threading.Thread(target=self.driver.config_changed, daemon=True)
+            t.start()
+            self.threads.append(t)
+            return "called"
+        raise ValueError(k)
+
+    async def start(self):
+        import contextlib
+        import io
+
+        if self.started:
+            return "already"
+        self.started = True
+        with contextlib.redirect_stdout(io.StringIO()):  # the setup message / QR code
+            await self.driver.async_start()
+        return "started"
+
+    async def quiesce(self):
+        """Everything the code under check has scheduled has run: executor jobs, threads, callbacks."""
+        for _ in range(50):
+            n = len(self.futs)
+            if self.futs:
+                await asyncio.wait_for(asyncio.gather(*self.futs, return_exceptions=True), HANG_S)
+            for t in self.threads:
+                await self._rie(self.helper, t.join, HANG_S)
+                if t.is_alive():
+                    raise Hung("config_changed() did not return")
+            self.futs = [f for f in self.futs if not f.done()]
+            self.threads = [t for t in self.threads if t.is_alive()]
+            await asyncio.sleep(0)
+            await asyncio.sleep(0)
+            if not self.futs and not self.threads and n == 0:
+                return
+        raise Hung("the loop never became idle")
+
+    def file_id(self):
+        try:
+            st_ = os.stat(self.path)
+            return (st_.st_ino, st_.st_mtime_ns, st_.st_size)
+        except FileNotFoundError:
+            return None
+
+    def close(self):
+        try:
+            if not self.loop.is_closed():
+                try:
+                    pend = [t for t in asyncio.all_tasks(self.loop) if not t.done()]
+                    for t in pend:
+                        t.cancel()
+                    if pend:
+                        self.loop.run_until_complete(asyncio.gather(*pend, return_exceptions=True))
+                    self.loop.run_until_complete(asyncio.wait_for(self.loop.shutdown_default_executor(), 5))
+                except Exception:  # noqa: BLE001
+                    pass
+                self.loop.close()
+        finally:
+            self.helper.shutdown(wait=False)
+            shutil.rmtree(self.dir, ignore_errors=True)
+
+
+def public_case(ctx: Ctx, scn: dict, ops: List[dict], verbose=False, count=True) -> bool:
+    """Run the operations back to back (op["settle"]: wait for quiescence after it), then let loop and
+    default executor drain and judge: file == in-memory identity + pairing state.  True = holds."""
+    if getattr(ctx, "hung", False):
+        return True
+    st = ctx.stats
+    rig = PublicRig(scn)
+    replay = {"kind": "public", "scenario": scn, "ops": ops}
+    trace = []
+    try:
+
+        async def go():
+            last_change = None  # (index, op kind, whether a save was seen for it)
+            for i, op in enumerate(ops):
+                before = ref.canon_state(rig.state)
+                sub0, fid0 = rig.submitted, rig.file_id()
+                res = (await rig.start()) if op["op"] == "start" else rig.do(op)
+                if op["op"] == "config_changed":
+                    for t in list(rig.threads):  # its save is synchronous: wait for the call itself
+                        await rig._rie(rig.helper, t.join, HANG_S)
+                changed = ref.canon_state(rig.state) != before
+                # a save was scheduled for this operation: a job went to the executor; config_changed saves
+                # synchronously, visible only as a replaced file
+                saved = rig.submitted != sub0 or (op["op"] == "config_changed" and rig.file_id() != fid0)
+                trace.append({"op": op["op"], "result": res, "state_changed": changed, "save_scheduled": saved})
+                if changed:
+                    last_change = (i, op["op"], saved)
+                if count:
+                    st.hit("op", "public:" + op["op"])
+                if op.get("settle"):
+                    await rig.quiesce()
+            await rig.quiesce()
+            return last_change
+
+        last_change = rig.loop.run_until_complete(go())
+        mem = ref.canon_state(rig.state)
+        which, why = judge_file(rig.path, [("memory", mem)])
+        if count:
+            st.hit("outcome", "public:file=" + ("memory" if which else "STALE"))
+            st.case(["public", scn, ops], any(t["state_changed"] for t in trace))
+        if verbose:
+            for t in trace:
+                print("  ", t)
+            print("at quiescence:", "file == memory" if which else "STALE: " + why)
+        if which is None:
+            no_save = last_change is not None and not last_change[2]
+            sig = "C15:file-stale-at-quiescence:no-save-scheduled" if no_save else "C15:file-stale-after-interleaved-saves"
+            desc = (
+                f"operations {[o['op'] for o in ops]} through the request handler / driver, loop and executor drained"
+                + (f"; operation {last_change[0]} ({last_change[1]}) changed the in-memory state and no save was scheduled for it" if no_save else "")
+                + f": the state file is not the in-memory state: {why}"
+            )
+            if count:
+                ctx.fail(sig, desc, replay)
+            return False
+        return True
+    except Hung as ex:
+        ctx.hung = True
+        ctx.fail("C15:save-blocks-forever", f"public operations {[o['op'] for o in ops]}: {ex}", replay)
+        return True
+    finally:
+        rig.close()
+
+
+def _mk_ctrl(rng, admin: bool, upper=None) -> dict:
+    u = str(uuid.UUID(int=rng.getrandbits(128), version=4))
+    if upper if upper is not None else rng.random() < 0.5:
+        u = u.upper()
+    return {"id": u, "seed": bytes(rng.getrandbits(8) for _ in range(32)).hex(), "perm": 1 if admin else 0}
+
+
+def _other_spelling(idtext: str) -> str:
+    return idtext.lower() if idtext != idtext.lower() else idtext.upper()
+
+
+def gen_public_ops(rng, initial: List[dict], n: int) -> List[dict]:
+    """Random operations that change the persisted state, built against the generator's own record of
+    the pairings (last-admin rule included) so that most of them take effect."""
+    present: Dict[str, dict] = {str(uuid.UUID(c["id"])): dict(c) for c in initial}
+    ops: List[dict] = []
+    started = False
+
+    def admins():
+        return [c for c in present.values() if c["perm"] & 1]
+
+    for _ in range(n):
+        r = rng.random()
+        if not admins():
+            c = _mk_ctrl(rng, True)  # nobody can administer any more: a new pair-setup
+            present[str(uuid.UUID(c["id"]))] = dict(c)
+            ops.append(dict(c, op="setup"))
+        elif r < 0.18:
+            c = _mk_ctrl(rng, rng.random() < 0.4)
+            actor = rng.choice(admins())
+            present[str(uuid.UUID(c["id"]))] = dict(c)
+            ops.append(dict(c, op="add", actor=dict(actor)))
+        elif r < 0.58:
+            actor = rng.choice(admins())
+            tgt = dict(rng.choice(sorted(present.values(), key=lambda c: c["id"])))
+            how = rng.choice(["perm", "perm", "key", "spelling"])
+            if how == "perm":
+                tgt["perm"] ^= 1
+            elif how == "key":
+                tgt["seed"] = bytes(rng.getrandbits(8) for _ in range(32)).hex()
+            else:
+                tgt["id"] = _other_spelling(tgt["id"])
+            ops.append(dict(tgt, op="add", actor=dict(actor)))
+            present[str(uuid.UUID(tgt["id"]))] = dict(tgt)
+        elif r < 0.75:
+            actor = rng.choice(admins())
+            tgt = rng.choice(sorted(present.values(), key=lambda c: c["id"]))
+            ops.append({"op": "remove", "id": tgt["id"], "actor": dict(actor)})
+            del present[str(uuid.UUID(tgt["id"]))]
+            if not admins():
+                present.clear()
+        elif r < 0.83:
+            ops.append({"op": "verify", "who": dict(rng.choice(sorted(present.values(), key=lambda c: c["id"])))})
+        elif r < 0.93 or started:
+            ops.append({"op": "config_changed"})
+        else:
+            started = True
+            ops.append({"op": "start"})
+        if rng.random() < 0.35:
+            ops[-1]["settle"] = True
+    return ops
+
+
+def public_cases(ctx: Ctx) -> List[Tuple[dict, List[dict]]]:
+    rng = ctx.rng
+    acc_seed = bytes(rng.getrandbits(8) for _ in range(32)).hex()
+    A = _mk_ctrl(rng, True, upper=True)
+    B = _mk_ctrl(rng, True, upper=True)
+    C = _mk_ctrl(rng, False, upper=False)
+    fresh = {"name": "fresh", "file": None}
+    S = {"settle": True}
+    setupA = dict(A, op="setup", **S)
+
+    def add(c, actor=A, **kw):
+        return dict(dict(c, **kw), op="add", actor=dict(actor))
+
+    cases: List[Tuple[dict, List[dict]]] = [
+        # a saved controller is re-added with the same key and other permissions (demote / promote)
+        (fresh, [setupA, dict(add(B), **S), add(B, perm=0)]),
+        (fresh, [setupA, dict(add(C), **S), add(C, perm=1)]),
+        (fresh, [setupA, add(B), add(B, perm=0)]),
+        # ... with another long-term key / another spelling of the identifier
+        (fresh, [setupA, dict(add(B), **S), add(B, seed=C["seed"])]),
+        (fresh, [setupA, dict(add(C), **S), add(C, id=_other_spelling(C["id"]))]),
+        (fresh, [setupA, add(A, id=_other_spelling(A["id"]))]),
+        # removal; removal of the only admin while users exist (sweeps every pairing)
+        (fresh, [setupA, dict(add(C), **S), {"op": "remove", "id": C["id"], "actor": dict(A)}]),
+        (fresh, [setupA, add(C), dict(add(dict(C, id=str(uuid.UUID(int=7)))), **S), {"op": "remove", "id": A["id"], "actor": dict(A)}]),
+        # configuration changes through the driver
+        (fresh, [setupA, {"op": "config_changed"}]),
+        (fresh, [{"op": "start"}]),
+        (fresh, [setupA, {"op": "start"}, {"op": "config_changed"}, add(B)]),
+    ]
+    for kind in ("legacy", "modern"):
+        scn = {"name": kind + "-file", "file": kind, "accessory_seed": acc_seed, "initial": [A, C]}
+        cases += [
+            (scn, [{"op": "verify", "who": dict(C)}]),  # back-fill of the identifier bytes after pair-verify
+            (scn, [{"op": "verify", "who": dict(A)}, {"op": "verify", "who": dict(C)}]),
+            (scn, [add(B), add(C, perm=1)]),
+            (scn, [{"op": "start"}]),
+        ]
+    for n in range(ctx.n(30, 400)):
+        if rng.random() < 0.3:
+            init = [_mk_ctrl(rng, True)] + [_mk_ctrl(rng, rng.random() < 0.3) for _ in range(rng.randrange(0, 3))]
+            scn = {"name": f"random-{n}", "file": rng.choice(["legacy", "modern"]), "accessory_seed": acc_seed, "initial": init}
+        else:
+            init, scn = [], {"name": f"random-{n}", "file": None}
+        cases.append((scn, gen_public_ops(rng, init, rng.randrange(2, 7))))
+    return cases
+
+
+def public_stream(ctx: Ctx):
+    st = ctx.stats
+    sampled = False
+    for scn, ops in public_cases(ctx):
+        ok = public_case(ctx, scn, ops)
+        if not ok and len(ops) > 1:
+            # shrink the operation list of the (single kept) failure of this shape
+            f = ctx.failures[-1]
+            if f.replay.get("ops") == ops:
+                small = delta_min(ops, lambda cand: not public_case(ctx, scn, cand, count=False), max_steps=60)
+                if len(small) < len(ops):
+                    f.replay = {"kind": "public", "scenario": scn, "ops": small}
+                    f.description = f"(minimised to {[o['op'] for o in small]}) " + f.description
+        if ok and not sampled and len(ops) >= 3:
+            sampled = True
+            st.sample({"stream": "public", "scenario": scn["name"], "ops": [{k: (v if k != "actor" else v["id"][:8]) for k, v in o.items() if k != "seed"} for o in ops], "at_quiescence": "file == memory"}, limit=8)
+
+
 # --------------------------------------------------------------------------- entry points
 
 
@@ -1269,9 +1690,12 @@ def run(ctx: Ctx):
         "call of each wrapped I/O function, pairs (save fault x cleanup fault), random fault sequences over "
         "consecutive saves; schedule: all (pause point of job 0) x (pause point of job 1) x (finishing order) over 9 "
         "pause points per job through driver.pair/unpair on a real loop + default executor, then random 3-4-job "
-        "schedules; natural: free-running pair/unpair bursts with seeded jitter. Non-trivial: the crash happened "
+        "schedules; natural: free-running pair/unpair bursts with seeded jitter; public: fixed boundary sequences "
+        "(permission-only / key / spelling re-add of a stored controller, removal, last-admin sweep, pair-verify "
+        "back-fill on a legacy file, config_changed, async_start) then random sequences of 2-6 such operations "
+        "through the real handler, judged at quiescence. Non-trivial: the crash happened "
         "before the save completed / a fault actually fired / a job was run while another was parked mid-save / "
-        "more than one background job. Distinct by scenario + crash point / fault list / command list."
+        "more than one background job / an operation changed the in-memory state. Distinct by scenario + crash point / fault list / command list."
     )
     model_cases: list = []
     try:
@@ -1286,6 +1710,7 @@ def run(ctx: Ctx):
         fault_stream(ctx, model_cases)
         schedule_stream(ctx, model_cases)
         natural_stream(ctx)
+        public_stream(ctx)
         _run_models(ctx, model_cases)
     finally:
         logging.disable(logging.NOTSET)
@@ -1306,6 +1731,7 @@ def search(ctx: Ctx):
                 crash_scenario(ctx, scn, sink)
         schedule_stream(ctx, sink)
         natural_stream(ctx)
+        public_stream(ctx)
         fault_stream(ctx, sink)
     finally:
         logging.disable(logging.NOTSET)
@@ -1322,6 +1748,8 @@ def replay(ctx: Ctx, r):
         fault_case(ctx, r["scenario"], r["saves"], sink, verbose=True)
     elif kind == "schedule":
         schedule_case(ctx, r["scenario"], r["cmds"], sink, timeout=0.5, faults=tuple(tuple(f) for f in r.get("faults", [])), verbose=True)
+    elif kind == "public":
+        public_case(ctx, r["scenario"], r["ops"], verbose=True)
     elif kind == "natural":
         for _ in range(20):  # timing dependent: try a few times
             if not natural_case(ctx, r["scenario"], r["ops"], r["jitter"], r["gaps"], verbose=True):
